@@ -1109,7 +1109,13 @@ impl<'a, 'w> Executor<'a, 'w> {
                     query.candidates(candidates);
                 }
                 let answer = match &o.by {
-                    By::Vec(v) => Some(query.by_vector(rtxn, v)?),
+                    By::Vec(v) => {
+                        // the builder is kept and re-run, as the crate's documentation does: a first query with another
+                        // vector (three times as long) must leave nothing behind in the builder
+                        let decoy: Vec<f32> = v.iter().map(|x| x * 3.0 + 0.25).collect();
+                        let _ = query.by_vector(rtxn, &decoy);
+                        Some(query.by_vector(rtxn, v)?)
+                    }
                     By::Item(id) => query.by_item(rtxn, *id)?,
                 };
                 Ok(match answer {
